@@ -369,7 +369,8 @@ ShrexReturn ==
 (* then assign Block.Container (the population rule).                      *)
 (***************************************************************************)
 BsOffer(i, k) ==
-    /\ Running("bitswap") /\ gctx = "live" /\ blk[i] = "empty" /\ bsN[i] < MaxAnswers /\ k \in BsKinds
+    /\ Running("bitswap") /\ blk[i] = "empty" /\ bsN[i] < MaxAnswers /\ k \in BsKinds
+       \* (a block already in flight is still hashed -- and populates -- after the context ended)
     /\ bsN' = [bsN EXCEPT ![i] = @ + 1]
     /\ bshist' = [bshist EXCEPT ![i] = Append(@, k)]
     /\ IF k = "correct"
